@@ -12,6 +12,7 @@ package c14
 import (
 	"encoding/hex"
 	"fmt"
+	"sort"
 	"strings"
 	"testing"
 
@@ -143,7 +144,7 @@ func (f blockFacts) nonTrivial() bool { return f.repeat || f.self || f.failed }
 type connected struct {
 	detail *types.BlockDetail
 	before snapshot // S taken before the block's local updates, over the universe that includes the block's own items
-	uTxs   int      // universe sizes when `before` was taken
+	hot    []string // addresses observed through the node API in `before`
 	failed map[string]int64
 }
 
@@ -152,7 +153,6 @@ func runCase(c chainCase, strict bool) (fail string, nonTrivial bool) {
 	n := newNode(c.Cfg, mvccThroughExecutor())
 	defer n.Close()
 	u := newUniverse()
-	u.cfgKeys = cfgKeys
 	if n.mvccInNode {
 		lib.Class("mvcc:through_executor")
 		u.addBlock(n.cfg, &types.BlockDetail{Block: n.tip()}) // genesis hash / state root / version 0
@@ -191,6 +191,7 @@ func runCase(c chainCase, strict bool) (fail string, nonTrivial bool) {
 
 		// path (i): executor KV sets applied to the blockchain db as AddTxs / DelTxs do
 		u.addBlock(n.cfg, detail)
+		u.hot = touched(detail)
 		before, rawBefore := n.snap(u), n.rawDump()
 		addSet, err := n.localKVs(types.EventAddBlock, detail)
 		if err != nil {
@@ -200,9 +201,8 @@ func runCase(c chainCase, strict bool) (fail string, nonTrivial bool) {
 		if msg := n.mvccApply(true, detail); msg != "" {
 			fixturef("block %d: AddMVCC: %s", bi, msg)
 		}
-		applied := n.snap(u)
-		if len(diff(before, applied)) == 0 {
-			fixturef("block %d: applying the local updates changed no observation (vacuous)", bi)
+		if len(rawDiff(rawBefore, n.rawDump())) == 0 {
+			fixturef("block %d: applying the local updates changed nothing in the db (vacuous)", bi)
 		}
 		delSet, err := n.localKVs(types.EventDelBlock, detail)
 		if err != nil {
@@ -251,7 +251,7 @@ func runCase(c chainCase, strict bool) (fail string, nonTrivial bool) {
 		if msg := n.mvccApply(true, detail); msg != "" {
 			return fmt.Sprintf("block %d (height %d): AddMVCC after a clean add+del failed: %s", bi, detail.Block.Height, msg), nonTrivial
 		}
-		chain = append(chain, connected{detail: detail, before: before, uTxs: len(u.txs), failed: failed})
+		chain = append(chain, connected{detail: detail, before: before, hot: u.hot, failed: failed})
 	}
 	if len(chain) == 0 {
 		return "", nonTrivial
@@ -271,6 +271,7 @@ func runCase(c chainCase, strict bool) (fail string, nonTrivial bool) {
 	}
 	// observations known when chain[k] was about to be added, plus the own items (tx hashes, block hash) of the later blocks
 	ur := *u
+	ur.hot = target.hot
 	after := n.snap(&ur)
 	want := snapshot{}
 	for key, o := range target.before {
@@ -301,6 +302,21 @@ func runCase(c chainCase, strict bool) (fail string, nonTrivial bool) {
 		lib.ExcludedKnown(knownFailedRecv)
 	}
 	return "", nonTrivial
+}
+
+// touched lists the from / to addresses of the block's transactions (sorted, distinct).
+func touched(d *types.BlockDetail) []string {
+	set := map[string]bool{}
+	for _, tx := range d.Block.Txs {
+		set[tx.From()] = true
+		set[tx.GetRealToAddr()] = true
+	}
+	var out []string
+	for a := range set {
+		out = append(out, a)
+	}
+	sort.Strings(out)
+	return out
 }
 
 func countTxs(specs []txSpec) int {
